@@ -34,25 +34,23 @@ def sym_MA(f, name, N, n, space, types):
 
 
 def mk_PRISM(f, n, spaces=None, minN=3):
-    """A PRISM object populated by hand on a fully specified n-component system."""
-    types = list(LABELS[:n])
-    D = mk_Domain(f)
-    N = f.getattr(D, '_length')
-    f.assume(N >= minN)          # the k->0 extrapolations use the three lowest-k points
-    dens = mk_Density(f, n, all_set=True, pos=True)
-    dia = mk_Diameter(f, n, all_set=True, pos=True)
-    for o in (dens, dia):
-        f.setattr(o, 'types', types)
-    sys = f.obj(SY, types=types, rank=n, kT=f.real('kT', pos=True), domain=D, density=dens, diameter=dia,
-                potential=mk_PT(f, 'potential', n, all_set=True), closure=mk_PT(f, 'closure', n, all_set=True),
-                omega=mk_PT(f, 'omega', n, all_set=True))
+    """A real PRISM object (built by PRISM.__init__ from a fully specified n-component System with real closure,
+    potential and omega objects), then populated by hand: the three correlation arrays are arbitrary symmetric
+    arrays, each stored in Real or Fourier space."""
+    from contracts.core_system import mk_System, MIXES
+    S = mk_System(f, n, mix=MIXES[n][0])
+    N0 = f.getattr(f.getattr(S, 'domain'), '_length')
+    f.assume(N0 >= minN)          # the k->0 extrapolations use the three lowest-k points
+    P = f.construct(PR, S)
+    sysm = f.getattr(P, 'sys')
+    types = f.getattr(sysm, 'types')
+    N = f.getattr(f.getattr(sysm, 'domain'), '_length')
     sp = {}
     for nm in ('totalCorr', 'directCorr', 'omega'):
         sp[nm] = (spaces or {}).get(nm) or f.enum_sym(nm + '_space', SP, members=('Real', 'Fourier'))
-    P = f.obj(PR, sys=sys,
-              totalCorr=sym_MA(f, 'H', N, n, sp['totalCorr'], types),
-              directCorr=sym_MA(f, 'C', N, n, sp['directCorr'], types),
-              omega=sym_MA(f, 'W', N, n, sp['omega'], types))
+    f.setattr(P, 'totalCorr', sym_MA(f, 'H', N, n, sp['totalCorr'], types))
+    f.setattr(P, 'directCorr', sym_MA(f, 'C', N, n, sp['directCorr'], types))
+    f.setattr(P, 'omega', sym_MA(f, 'W', N, n, sp['omega'], types))
     return P
 
 
